@@ -59,6 +59,33 @@ func (p *Program) hasCrashSite(fn *ssa.Function) bool {
 	return false
 }
 
+// callsWithPre: the function calls one whose contract has preconditions -- a call site that can
+// fail like an index expression can (found by `gvc audit-callers`: forStmt, funcLit and the range
+// statements call blockStmt and have no other crash site, so nobody checked blockStmt's requires).
+func (p *Program) callsWithPre(fn *ssa.Function) bool {
+	for _, b := range fn.Blocks {
+		for _, ins := range b.Instrs {
+			var cc *ssa.CallCommon
+			switch x := ins.(type) {
+			case *ssa.Call:
+				cc = &x.Call
+			case *ssa.Go:
+				cc = &x.Call
+			case *ssa.Defer:
+				cc = &x.Call
+			default:
+				continue
+			}
+			if f := cc.StaticCallee(); f != nil {
+				if c := p.contracts[f.String()]; c != nil && !c.Assumed && len(c.clauses("requires")) > 0 {
+					return true
+				}
+			}
+		}
+	}
+	return false
+}
+
 func sweepContracts(propID string) func(p *Program) []*Contract {
 	return func(p *Program) []*Contract {
 		var names []string
@@ -82,7 +109,7 @@ func sweepContracts(propID string) func(p *Program) []*Contract {
 			if c := p.contracts[name]; c != nil && (contractServes(c, propID) || c.Assumed) {
 				continue // explicit contract (served through its props line)
 			}
-			if !p.hasCrashSite(fn) {
+			if !p.hasCrashSite(fn) && !p.callsWithPre(fn) {
 				continue
 			}
 			names = append(names, name)
@@ -238,4 +265,127 @@ func c04Extra(pc *propCheck) {
 		o.Result = &SolverResult{Status: "unknown", Solver: "gvc-ssa-scan", Output: detail}
 	}
 	pc.Obls = append(pc.Obls, o)
+}
+
+// auditCallers: a precondition is only worth something if every caller is checked against it.
+// For every contract with a (non-trusted) requires clause, every function of the loaded packages
+// that calls it statically must itself be verified under some claimed property (explicit contract
+// or sweep) -- otherwise the precondition is assumed by the callee and established by nobody.
+// Callers that are small enough to be inlined are followed up to their own callers.
+func auditCallers() int {
+	verified := map[string]bool{}
+	type site struct{ caller, callee string }
+	var sites []site
+	withPre := map[string]bool{}
+	seenProg := map[string]bool{}
+	var progs []*Program
+	for id, ps := range props {
+		p, err := loadProgram(repoDir, ps.Patterns, nil)
+		if err != nil {
+			fmt.Println(err)
+			return 2
+		}
+		if ps.Setup != nil {
+			ps.Setup(p)
+		}
+		for _, cf := range p.conFiles {
+			for _, c := range cf.Contracts {
+				if c.Assumed {
+					continue
+				}
+				if contractServes(c, id) {
+					verified[c.Full] = true
+				}
+				if len(c.clauses("requires")) > 0 {
+					withPre[c.Full] = true
+				}
+			}
+		}
+		if ps.Sweep != nil {
+			for _, c := range ps.Sweep(p) {
+				verified[c.Full] = true
+			}
+		}
+		key := strings.Join(ps.Patterns, ",")
+		if !seenProg[key] {
+			seenProg[key] = true
+			progs = append(progs, p)
+		}
+	}
+	callers := map[string]map[string]bool{} // callee -> callers (all static calls, for following inlined helpers)
+	for _, p := range progs {
+		for name, fn := range p.fns {
+			if len(fn.Blocks) == 0 || fn.Synthetic != "" || strings.HasSuffix(fn.Prog.Fset.Position(fn.Pos()).Filename, "_test.go") {
+				continue // (synthetic: the pointer-receiver wrappers forward their arguments unchanged)
+			}
+			for _, b := range fn.Blocks {
+				for _, ins := range b.Instrs {
+					var cc *ssa.CallCommon
+					switch x := ins.(type) {
+					case *ssa.Call:
+						cc = &x.Call
+					case *ssa.Go:
+						cc = &x.Call
+					case *ssa.Defer:
+						cc = &x.Call
+					case *ssa.MakeClosure:
+						// the enclosing function "calls" its closures for this purpose
+						cn := x.Fn.(*ssa.Function).String()
+						if callers[cn] == nil {
+							callers[cn] = map[string]bool{}
+						}
+						callers[cn][name] = true
+						continue
+					default:
+						continue
+					}
+					if f := cc.StaticCallee(); f != nil {
+						cn := f.String()
+						if callers[cn] == nil {
+							callers[cn] = map[string]bool{}
+						}
+						callers[cn][name] = true
+					}
+				}
+			}
+		}
+	}
+	bad := 0
+	var names []string
+	for n := range withPre {
+		names = append(names, n)
+	}
+	sort.Strings(names)
+	for _, callee := range names {
+		// every chain of unverified callers must end in a verified function
+		var visit func(fn string, depth int, seen map[string]bool) []string
+		visit = func(fn string, depth int, seen map[string]bool) []string {
+			var out []string
+			for c := range callers[fn] {
+				if seen[c] {
+					continue
+				}
+				seen[c] = true
+				if verified[c] {
+					continue
+				}
+				out = append(out, c)
+			}
+			return out
+		}
+		un := visit(callee, 0, map[string]bool{})
+		sort.Strings(un)
+		for _, c := range un {
+			sites = append(sites, site{c, callee})
+		}
+	}
+	for _, s := range sites {
+		fmt.Printf("UNCHECKED-CALLER %s calls %s (which has preconditions) and is verified under no property\n", s.caller, s.callee)
+		bad++
+	}
+	fmt.Printf("audit-callers: %d contracts with preconditions, %d call sites in unverified functions\n", len(withPre), bad)
+	if bad > 0 {
+		return 1
+	}
+	return 0
 }
